@@ -1,6 +1,7 @@
 use crate::trace::Args;
 
 pub mod c07_montgomery;
+pub mod selftest;
 pub mod c01;
 pub mod c02;
 pub mod c03;
@@ -24,6 +25,7 @@ pub mod c20;
 pub fn dispatch(name: &str, args: &Args) -> i32 {
     match name {
         "c07" => c07_montgomery::run(args),
+        "selftest" => selftest::run(args),
         "c01" => c01::run(args),
         "c02" => c02::run(args),
         "c03" => c03::run(args),
